@@ -441,7 +441,8 @@ func CheckC04(a []byte, b uint64) {
 // of denom d.
 func CheckC03(a []byte, b uint64, d string) {
 	da := DeltaAccount(a, b)
-	zz.Assert(zz.QLe(q0(), zz.QAdd(da.Tradable, da.Escrowed)), "C03 a non-signer's tradable+escrowed credits do not decrease")
+	zz.Assert(zz.QLe(q0(), da.Tradable), "C03 a non-signer's tradable credits do not decrease")
+	zz.Assert(zz.QLe(q0(), da.Escrowed), "C03 a non-signer's escrowed credits do not decrease")
 	zz.Assert(zz.QLe(zz.BankBal0(a, d), zz.BankBal1(a, d)), "C03 a non-signer's coins do not decrease")
 }
 
